@@ -224,6 +224,7 @@ pub trait Coll<P: PT>: Clone + Default {
     fn is_empty(&self) -> bool;
     fn tree(&self, ctx: &Ctx) -> Value;
     fn snap(&self) -> VerifSnapshot;
+    fn as_map(&mut self) -> Option<&mut PrefixMap<P, i32>>;
 }
 
 const LIM: usize = 100_000;
@@ -297,6 +298,9 @@ impl<P: PT> Coll<P> for PrefixMap<P, i32> {
     }
     fn snap(&self) -> VerifSnapshot {
         self.verif_snapshot()
+    }
+    fn as_map(&mut self) -> Option<&mut PrefixMap<P, i32>> {
+        Some(self)
     }
 }
 
@@ -374,6 +378,124 @@ impl<P: PT> Coll<P> for PrefixSet<P> {
     fn snap(&self) -> VerifSnapshot {
         self.verif_snapshot()
     }
+    fn as_map(&mut self) -> Option<&mut PrefixMap<P, i32>> {
+        None
+    }
+}
+
+pub const PANIC_ARG: i64 = -2;
+pub fn flip(v: i32) -> i32 {
+    if v == 1 {
+        2
+    } else {
+        1
+    }
+}
+
+/// A session on one entry handle: map.entry(p) followed by the calls in `ops`.
+/// Returns the per-call results; panics (closure or unwrap) propagate to the caller.
+pub fn entry_session<P: PT>(map: &mut PrefixMap<P, i32>, p: P, ops: &[Value], ctx: &Ctx, rets: &mut Vec<Value>) {
+    use prefix_trie::map::Entry;
+    let mut ent: Option<Entry<'_, P, i32>> = Some(map.entry(p));
+    for op in ops {
+        let Some(e) = ent.take() else { break };
+        let o = op["o"].as_str().unwrap();
+        let v = op["v"].as_i64().unwrap();
+        let boom = v == PANIC_ARG;
+        let vi = v as i32;
+        match o {
+            "get" => {
+                rets.push(opt(e.get().copied()));
+                ent = Some(e);
+            }
+            "get_mut" => {
+                let mut e = e;
+                let r = e.get_mut().map(|x| std::mem::replace(x, vi));
+                rets.push(opt(r));
+                ent = Some(e);
+            }
+            "key" => {
+                rets.push(json!([ctx.enc(e.key())]));
+                ent = Some(e);
+            }
+            "and_modify" => {
+                let e = e.and_modify(|x| {
+                    if boom {
+                        panic!("injected closure panic");
+                    }
+                    *x = vi
+                });
+                rets.push(json!([]));
+                ent = Some(e);
+            }
+            "insert" => rets.push(opt(e.insert(vi))),
+            "or_insert" => rets.push(json!([*e.or_insert(vi)])),
+            "or_insert_with" => rets.push(json!([*e.or_insert_with(|| {
+                if boom {
+                    panic!("injected closure panic");
+                }
+                vi
+            })])),
+            "or_default" => rets.push(json!([*e.or_default()])),
+            "o_key" | "o_get" | "o_get_mut" | "o_insert" | "o_remove" => match e {
+                Entry::Occupied(mut oe) => match o {
+                    "o_key" => {
+                        rets.push(json!([ctx.enc(oe.key())]));
+                        ent = Some(Entry::Occupied(oe));
+                    }
+                    "o_get" => {
+                        rets.push(json!([*oe.get()]));
+                        ent = Some(Entry::Occupied(oe));
+                    }
+                    "o_get_mut" => {
+                        let old = std::mem::replace(oe.get_mut(), vi);
+                        rets.push(json!([old]));
+                        ent = Some(Entry::Occupied(oe));
+                    }
+                    "o_insert" => rets.push(json!([oe.insert(vi)])),
+                    _ => {
+                        rets.push(json!([oe.remove()]));
+                        ent = Some(Entry::Occupied(oe));
+                    }
+                },
+                Entry::Vacant(_) => {
+                    rets.push(json!(["KIND-VACANT"]));
+                }
+            },
+            "v_key" | "v_insert" | "v_insert_with" | "v_default" => match e {
+                Entry::Vacant(ve) => match o {
+                    "v_key" => {
+                        rets.push(json!([ctx.enc(ve.key())]));
+                        ent = Some(Entry::Vacant(ve));
+                    }
+                    "v_insert" => rets.push(json!([*ve.insert(vi)])),
+                    "v_insert_with" => rets.push(json!([*ve.insert_with(|| {
+                        if boom {
+                            panic!("injected closure panic");
+                        }
+                        vi
+                    })])),
+                    _ => rets.push(json!([*ve.default()])),
+                },
+                Entry::Occupied(_) => {
+                    rets.push(json!(["KIND-OCCUPIED"]));
+                }
+            },
+            other => panic!("unknown entry op {other}"),
+        }
+    }
+}
+
+/// hold *all* yielded mutable references at once, then write through the k-th (or all: k = 0)
+pub fn write_through<'a, P: PT + 'a>(ctx: &Ctx, it: impl Iterator<Item = (&'a P, &'a mut i32)>, k: usize) -> Value {
+    let mut refs: Vec<(&P, &mut i32)> = it.take(LIM).collect();
+    let out: Vec<Value> = refs.iter().map(|(p, v)| json!({"p": ctx.enc(*p), "v": **v})).collect();
+    for (j, (_, v)) in refs.iter_mut().enumerate() {
+        if k == 0 || k == j + 1 {
+            **v = flip(**v);
+        }
+    }
+    Value::Array(out)
 }
 
 /// Execute one specification event on a collection.  `None` = the event kind does not exist
@@ -417,6 +539,57 @@ pub fn apply<P: PT, C: Coll<P>>(c: &mut C, ev: &Value, ctx: &Ctx) -> Option<Outc
             Outcome {
                 ret: Value::Array(calls),
                 pan: r.is_err(),
+            }
+        }
+        "Entry" | "GetMut" | "LpmMut" | "IterMut" | "ValuesMut" | "ChildrenMut" => {
+            let Some(map) = c.as_map() else { return None };
+            let k = ev["k"].as_u64().unwrap_or(0) as usize;
+            match a {
+                "Entry" => {
+                    let mut rets = vec![];
+                    let r = catch_unwind(AssertUnwindSafe(|| {
+                        entry_session(map, p(), ev["ops"].as_array().unwrap(), ctx, &mut rets)
+                    }));
+                    Outcome {
+                        ret: Value::Array(rets),
+                        pan: r.is_err(),
+                    }
+                }
+                "GetMut" => {
+                    let v = ev["v"].as_i64().unwrap() as i32;
+                    guarded(|| opt(map.get_mut(&p()).map(|x| std::mem::replace(x, v))))
+                }
+                "LpmMut" => {
+                    let v = ev["v"].as_i64().unwrap() as i32;
+                    guarded(|| match map.get_lpm_mut(&p()) {
+                        Some((q, x)) => {
+                            let old = std::mem::replace(x, v);
+                            json!([{"p": ctx.enc(q), "v": old}])
+                        }
+                        None => json!([]),
+                    })
+                }
+                "IterMut" => guarded(|| write_through(ctx, map.iter_mut(), k)),
+                "ValuesMut" => guarded(|| {
+                    // values_mut yields no prefixes: pair the references with the keys read before
+                    let keys: Vec<P> = map.keys().take(LIM).cloned().collect();
+                    let mut refs: Vec<&mut i32> = map.values_mut().take(LIM).collect();
+                    let out: Vec<Value> = refs
+                        .iter()
+                        .enumerate()
+                        .map(|(j, v)| match keys.get(j) {
+                            Some(q) => json!({"p": ctx.enc(q), "v": **v}),
+                            None => json!({"p": "EXTRA", "v": **v}),
+                        })
+                        .collect();
+                    for (j, v) in refs.iter_mut().enumerate() {
+                        if k == 0 || k == j + 1 {
+                            **v = flip(**v);
+                        }
+                    }
+                    Value::Array(out)
+                }),
+                _ => guarded(|| write_through(ctx, map.children_mut(&p()), k)),
             }
         }
         "Get" => guarded(|| opt(c.get(&p()))),
